@@ -1,10 +1,13 @@
-(* C01 — the code refreshes the last read values inside the evaluation task after its own write, and enable() forces the
-   evaluation of all expressions (both regenerated from core/ports.py on every run); the convergence theorem is proved for
-   exactly that model. *)
+(* C01 — the code refreshes the last read values inside the evaluation task after its own write, and enable() and disable()
+   both force the evaluation of all expressions (all three regenerated from core/ports.py on every run); the convergence
+   theorem is proved for exactly that model. *)
 From QT Require Import Gen.C01Gen.
 
 Lemma refresh_after_write_true : refresh_after_write = true.
 Proof. reflexivity. Qed.
 
 Lemma enable_forces_all_true : enable_forces_all = true.
+Proof. reflexivity. Qed.
+
+Lemma disable_forces_all_true : disable_forces_all = true.
 Proof. reflexivity. Qed.
